@@ -33,23 +33,28 @@ def empty (s : Buf) : Bool := s.data.length ≤ s.off
 
 def reset (s : Buf) : Buf := { s with data := [], off := 0, lastRead := 0 }
 
-/-- `grow(n)`: make room for n more bytes; returns the state in which `data` still holds exactly
-    the old contents (the caller appends) together with the capacities not yet consumed. -/
-def growRoom (s : Buf) (n : Nat) (caps : List Nat) : Except BufPanic (Buf × List Nat) :=
-  let m := s.len
-  let s := if m == 0 && s.off != 0 then s.reset else s
+/-- the first thing `grow` does: an empty buffer with a read offset is reset -/
+def normalize (s : Buf) : Buf := if s.len == 0 && s.off != 0 then s.reset else s
+
+/-- `grow(n)` after the normalisation: reslice / small first allocation / slide / reallocate. -/
+def growCore (s : Buf) (n : Nat) (caps : List Nat) : Except BufPanic (Buf × List Nat) :=
   if n ≤ s.cap - s.data.length then .ok (s, caps)                       -- tryGrowByReslice
   else if s.isNil && n ≤ smallBufferSize then .ok ({ s with cap := smallBufferSize, isNil := false }, caps)
   else
     let c := s.cap
-    if n + m ≤ c / 2 then .ok ({ s with data := s.unread, off := 0 }, caps)            -- slide down
+    if n + s.len ≤ c / 2 then .ok ({ s with data := s.unread, off := 0 }, caps)            -- slide down
     else if c > maxIntNat - c - n then .error .tooLarge
     else
       match caps with
       | newCap :: rest =>
-        -- growSlice(buf[off:], off+n): at least len+off+n, at least twice the old capacity of the tail
+        -- growSlice(buf[off:], off+n): the runtime grants `newCap`
         .ok ({ s with data := s.unread, off := 0, cap := newCap, isNil := false }, rest)
-      | [] => .ok ({ s with data := s.unread, off := 0, cap := max (m + s.off + n) (2 * (c - s.off)), isNil := false }, [])
+      | [] => .ok ({ s with data := s.unread, off := 0, cap := max (s.len + s.off + n) (2 * (c - s.off)), isNil := false }, [])
+
+/-- `grow(n)`: make room for n more bytes; returns the state in which `data` still holds exactly
+    the old contents (the caller appends) together with the capacities not yet consumed. -/
+def growRoom (s : Buf) (n : Nat) (caps : List Nat) : Except BufPanic (Buf × List Nat) :=
+  s.normalize.growCore n caps
 
 def append (s : Buf) (p : Bytes) (caps : List Nat) : Except BufPanic (Buf × List Nat) := do
   let (s, caps) ← (if p.length ≤ s.cap - s.data.length then pure (s, caps) else s.growRoom p.length caps)
